@@ -25,3 +25,41 @@ fn k_chatlog_header_only_nopanic() {
     if let Some(l) = ChatLog::from_existing(&b) { core::mem::forget(l); }
     kani::cover!(true, "reachable");
 }
+
+//@use_common
+
+fn nlog_valid() -> Vec<u8> {
+    // layout the reader expects: content_size, file_size, (file_size - content_size) offsets, content at 8 + 4 * file_size
+    let msgs: [&[u8]; 3] = [b"hello", b"", "w\u{f6}rld".as_bytes()];
+    let mut content: Vec<u8> = vec![];
+    let mut offs: Vec<u32> = vec![];
+    for (i, m) in msgs.iter().enumerate() {
+        offs.push(content.len() as u32);
+        content.extend_from_slice(&(1_700_000_000u32 + i as u32).to_le_bytes());
+        content.push([3u8, 20, 64][i]);
+        content.push([0u8, 2, 32][i]);
+        content.extend_from_slice(&1u32.to_le_bytes());
+        content.extend_from_slice(m);
+    }
+    let mut v: Vec<u8> = vec![];
+    v.extend_from_slice(&0u32.to_le_bytes());
+    v.extend_from_slice(&3u32.to_le_bytes());
+    for o in offs { v.extend_from_slice(&o.to_le_bytes()); }
+    v.extend_from_slice(&content);
+    v
+}
+
+//@unit props=C17 label=B tier=quick native=1 fn=log::ChatLog::from_existing bound="by execution: a 3-entry log built to the layout the reader expects (one empty and one multi-byte message): the log itself, every truncation and 7 single-byte corruptions per byte"
+//@desc a well-formed log yields its three messages; damaged logs (truncated anywhere, any single byte of sizes, offsets, filter/channel bytes or text damaged) yield None or a value, never a panic
+#[test]
+fn native_chatlog_damaged_nopanic() {
+    let v = nlog_valid();
+    let log = ChatLog::from_existing(&v).expect("the well-formed log parses");
+    assert_eq!(log.entries.len(), 3);
+    assert_eq!(log.entries[0].message, "hello");
+    assert_eq!(log.entries[1].message, "");
+    assert_eq!(log.entries[2].message, "w\u{f6}rld");
+    let f = |b: &[u8]| { let _ = ChatLog::from_existing(b); };
+    let cases = native_sweep(&v, 4096, 1, &f);
+    println!("NATIVE native_chatlog_damaged_nopanic cases={cases}");
+}
